@@ -74,6 +74,7 @@ type privCell struct {
 }
 
 type frame struct {
+	keepBook bool
 	enc      *encoder
 	fn       *ssa.Function
 	parent   *frame
@@ -736,6 +737,14 @@ func (fr *frame) havocKeys(st *State, keys []string) {
 	}
 }
 
+// keepBook: the havoc stands for code that cannot run contract-bearing repo
+// functions (an assumed "modifies all"), so bookkeeping ghosts survive it.
+func (fr *frame) havocEverythingBut(st *State, why string) {
+	fr.keepBook = true
+	fr.havocEverything(st, false, why)
+	fr.keepBook = false
+}
+
 func (fr *frame) havocEverything(st *State, keepGhost bool, why string) {
 	vc := fr.vc()
 	fr.frameHavoc(st, why)
@@ -746,7 +755,21 @@ func (fr *frame) havocEverything(st *State, keepGhost bool, why string) {
 			olds[p.key] = vc.cur(st, p.key)
 		}
 	}
+	var saved map[string]string
+	if fr.keepBook && !keepGhost {
+		saved = map[string]string{}
+		for name, g := range fr.enc.db.Ghosts {
+			if g.Book {
+				k := vc.keyGhost(g)
+				saved[k] = vc.cur(st, k)
+				_ = name
+			}
+		}
+	}
 	vc.havocAll(st, keepGhost)
+	for k, v := range saved {
+		st.ver[k] = v
+	}
 	for _, p := range priv {
 		nv := vc.cur(st, p.key)
 		vc.fact(eq(fmt.Sprintf("(select %s %s)", nv, p.idx), fmt.Sprintf("(select %s %s)", olds[p.key], p.idx)))
@@ -887,6 +910,15 @@ func (fr *frame) frameHavoc(st *State, what string) {
 	}
 	for _, d := range fr.enc.declMods {
 		if d.key == "*" && d.idx == "" {
+			if !fr.keepBook {
+				// unknown code may run contract-bearing functions: every bookkeeping ghost must be listed
+				for _, g := range fr.enc.db.Ghosts {
+					if g.Book && !fr.enc.declaresWhole(fr.vc().keyGhost(g)) {
+						fr.oblige("frame", "", fr.nextAnchor("havoc"), st, "false", "unbounded effect ("+what+") may change bookkeeping ghost "+g.Name+", which \"modifies all\" does not cover", nil)
+						return
+					}
+				}
+			}
 			return
 		}
 		if d.key == "*heap" && (strings.HasPrefix(what, "go ") || strings.HasPrefix(what, "heap-only:") || what == "modifies heap") {
@@ -894,4 +926,22 @@ func (fr *frame) frameHavoc(st *State, what string) {
 		}
 	}
 	fr.oblige("frame", "", fr.nextAnchor("havoc"), st, "false", "unbounded effect ("+what+") in a function whose contract has a modifies clause", nil)
+}
+
+func (e *encoder) declaresWhole(key string) bool {
+	for _, d := range e.declMods {
+		if d.key == key && d.idx == "" && d.pred == nil {
+			return true
+		}
+	}
+	return false
+}
+
+func (e *encoder) isBookKey(key string) bool {
+	for _, g := range e.db.Ghosts {
+		if g.Book && "G:"+g.Name == key {
+			return true
+		}
+	}
+	return false
 }
